@@ -118,6 +118,22 @@ def _consistency(spec, ctx):
         ctx.check(oky and my is not m and (type(m), m.theta, m.tau) == snap, 'select.result-not-shared',
                   'C11:earlier-result-changed-by-later-call', lambda: dict(where, before=[snap[1], snap[2]], after=[m.theta, m.tau],
                                                                          same_object=bool(oky and my is m)))
+    # a sample whose tau differs in the 5th decimal only (two neighbouring values of one column swapped) gets the
+    # calibration of ITS tau: nothing may be shared between selections on nearly equal data
+    if spec['kind'] in ('gauss', 'family', 'independent', 'permuted') and len(X) >= 20:
+        X2 = np.array(X0, dtype=float, order='C')
+        order = np.argsort(X2[:, 1], kind='stable')
+        a, b = order[len(X2) // 2], order[len(X2) // 2 + 1]
+        X2[a, 1], X2[b, 1] = X2[b, 1], X2[a, 1]
+        okt, mt = ctx.call(select_copula, X2)
+        if okt and _fam_of(mt) is not None and mt.theta is not None:
+            tb2 = rank.tau_b(X2[:, 0], X2[:, 1]) if len(X2) <= 4000 else None
+            f2 = _fam_of(mt)
+            if tb2 is not None and abs(tb2) < 0.99 and mt.theta not in (0, float('inf')):
+                t2 = float(arch.Arch(f2, mt.theta).tau())
+                tol2 = frank_tol(tb2) if f2 == 'frank' else 1e-12
+                ctx.check(abs(t2 - tb2) <= tol2, 'select.calibrated', 'C11:%s-theta-miscalibrated' % f2,
+                          lambda: dict(where, twin_of_previous_sample=True, theta=mt.theta, tau_of_theta=t2, tau_b=tb2))
     # the selection is a function of the sample, not of the order of its rows
     if len(X) >= 6:
         Xs = X0[np.argsort(X0[:, 0], kind='stable')]
